@@ -169,7 +169,13 @@ def evm(t, env, mp, memo=None, idx=None):
     if idx is None:
         idx = {}
     op = t[0]
-    dep = op in ("idx", "series") or (bool(idx) and _uses_idx(t))
+    if idx:
+        uk = ("uses", id(t))
+        if uk not in memo:
+            memo[uk] = _uses_idx(t)       # the memo lives only as long as the top-level call: ids are stable within it
+        dep = memo[uk] or op in ("series", "sum", "quad", "root")
+    else:
+        dep = op in ("idx", "series", "sum", "quad", "root")
     key = id(t)
     if not dep and key in memo:
         return memo[key]
@@ -260,8 +266,42 @@ def evm(t, env, mp, memo=None, idx=None):
             if k > kmax:
                 raise ArithmeticError("series did not converge in %d terms" % kmax)
         r = total
-    elif op in ("exp", "sqrt", "sin", "cos", "tan", "sinh", "cosh"):
+    elif op in ("exp", "sqrt", "sin", "cos", "tan", "sinh", "cosh", "erf", "gamma", "log", "atan", "acos", "asin"):
         r = getattr(mp, op)(f(t[1]))
+    elif op == "atan2":
+        r = mp.atan2(f(t[1]), f(t[2]))
+    elif op == "pow":
+        r = f(t[1]) ** f(t[2])
+    elif op == "inf":
+        r = mp.inf
+    elif op == "gammaincP":                       # regularised lower incomplete gamma P(a, x)
+        r = mp.gammainc(f(t[1]), 0, f(t[2]), regularized=True)
+    elif op == "binom":
+        r = mp.binomial(f(t[1]), f(t[2]))
+    elif op == "sum":                             # ["sum", name, lo, hi, body]  finite sum, integer bounds
+        lo, hi = int(f(t[2])), int(f(t[3]))
+        r = mp.mpf(0)
+        for k in range(lo, hi + 1):
+            idx2 = dict(idx)
+            idx2[t[1]] = mp.mpf(k)
+            r = r + evm(t[4], env, mp, memo, idx2)
+    elif op == "quad":                            # ["quad", name, lo, hi, body]  integral (mpmath tanh-sinh / Gauss-Legendre)
+        lo, hi = f(t[2]), f(t[3])
+
+        def g(x, _t=t):
+            idx2 = dict(idx)
+            idx2[_t[1]] = x
+            return evm(_t[4], env, mp, memo, idx2)
+        pts = [lo, hi] if "__quadpts" not in env else [lo] + list(env["__quadpts"]) + [hi]
+        r = mp.quad(g, pts)
+    elif op == "root":                            # ["root", name, expr, lo, hi]  zero of expr; lo = hi: unbracketed, start lo
+        lo, hi = f(t[3]), f(t[4])
+
+        def g(x, _t=t):
+            idx2 = dict(idx)
+            idx2[_t[1]] = x
+            return evm(_t[2], env, mp, memo, idx2)
+        r = mp.findroot(g, lo) if lo == hi else mp.findroot(g, (lo, hi), solver="illinois", maxsteps=400)
     elif op == "abs":
         r = abs(f(t[1]))
     elif op == "re":
@@ -273,6 +313,55 @@ def evm(t, env, mp, memo=None, idx=None):
     if not dep:
         memo[key] = r
     return r
+
+
+def evq(t, env, idx=None):
+    """exact rational evaluation (fractions.Fraction): var num rat add sub neg mul div pow(integer exponent) idx sum binom"""
+    from fractions import Fraction
+    from math import comb
+    idx = idx or {}
+    op = t[0]
+    f = lambda u: evq(u, env, idx)  # noqa
+    if op == "var":
+        return Fraction(env[t[1]])
+    if op == "num":
+        return Fraction(t[1])
+    if op == "rat":
+        return Fraction(t[1], t[2])
+    if op == "idx":
+        return Fraction(idx[t[1]])
+    if op == "add":
+        r = f(t[1])
+        for u in t[2:]:
+            r += f(u)
+        return r
+    if op == "sub":
+        return f(t[1]) - f(t[2])
+    if op == "neg":
+        return -f(t[1])
+    if op == "mul":
+        r = f(t[1])
+        for u in t[2:]:
+            r *= f(u)
+        return r
+    if op == "div":
+        return f(t[1]) / f(t[2])
+    if op == "pow":
+        e = f(t[2])
+        if e.denominator != 1:
+            raise ValueError("evq: non-integer exponent")
+        return f(t[1]) ** int(e)
+    if op == "binom":
+        return Fraction(comb(int(f(t[1])), int(f(t[2]))))
+    if op == "sum":
+        lo, hi = int(f(t[2])), int(f(t[3]))
+        r = Fraction(0)
+        for k in range(lo, hi + 1):
+            i2 = dict(idx)
+            i2[t[1]] = k
+            r += evq(t[4], env, i2)
+        return r
+    raise ValueError("evq: unknown term constructor %r" % (op,))
 
 
 def _uses_idx(t):
